@@ -16,9 +16,9 @@ use rust_decimal::Decimal;
 fn step(bits: u32) {
     let peak = dec_pos(bits);
     let trough = dec_i(bits);
-    kani::assume(trough <= peak);
-    let (s0, s1, s2): (u8, u8, u8) = (kani::any(), kani::any(), kani::any());
-    kani::assume(s0 <= s1 && s1 <= s2 && s2 < 8);
+    assume(trough <= peak);
+    let (s0, s1, s2): (u8, u8, u8) = (any_u8_lt(8), any_u8_lt(8), any_u8_lt(8));
+    assume(s0 <= s1 && s1 <= s2);
     let mut generator = DrawdownGenerator {
         peak: Some(peak),
         drawdown_max: (peak - trough) / peak,
@@ -95,8 +95,8 @@ fn curve<const K: usize>(bits: u32) {
     let mut i = 0;
     while i < K {
         vals[i] = if i == 0 { dec_pos(bits) } else { dec_i(bits) };
-        let t: u8 = kani::any();
-        kani::assume(t < 8 && (i == 0 || t >= ts[i - 1]));
+        let t = any_u8_lt(8);
+        assume(i == 0 || t >= ts[i - 1]);
         ts[i] = t;
         i += 1;
     }
@@ -150,8 +150,8 @@ proof! {
 }
 
 fn any_drawdown(bits: u32) -> Drawdown {
-    let (a, b): (u8, u8) = (kani::any(), kani::any());
-    kani::assume(a <= b && b < 8);
+    let (a, b): (u8, u8) = (any_u8_lt(8), any_u8_lt(8));
+    assume(a <= b);
     Drawdown { value: dec_q(bits, 3), time_start: time_at(a), time_end: time_at(b) }
 }
 
@@ -159,7 +159,7 @@ fn any_drawdown(bits: u32) -> Drawdown {
 proof! {
     #[kani::unwind(8)]
     fn c18_q_max_step() {
-        let has: bool = kani::any();
+        let has = any_bool();
         let current = any_drawdown(3);
         let next = any_drawdown(3);
         let mut generator = if has { MaxDrawdownGenerator::init(current.clone()) } else { MaxDrawdownGenerator::default() };
@@ -181,11 +181,9 @@ proof! {
 proof! {
     #[kani::unwind(8)]
     fn c18_q_mean_step() {
-        let n: u8 = kani::any();
-        kani::assume(n <= 4);
+        let n = any_u8_lt(5);
         let s = dec_q(4, 3); // ghost: sum of depths so far
-        let mean_ms: i64 = kani::any();
-        kani::assume(mean_ms >= 0 && mean_ms <= 8000);
+        let mean_ms = any_int_in(0, 8000);
         let mut generator = if n == 0 { MeanDrawdownGenerator::default() } else {
             MeanDrawdownGenerator { count: n as u64, mean_drawdown: Some(MeanDrawdown { mean_drawdown: s / Decimal::from(n), mean_drawdown_ms: mean_ms }) }
         };
